@@ -117,6 +117,7 @@ def run(ctx) -> None:
     from . import tooltables
     from .common import Relabel
     tooltables.tool_tables(ctx, "R06.8", tooltables.USES)
+    tooltables.fault_tables(ctx, "R06.10")
     ctx.rule("R06.9", "islice pulls exactly the items itertools.islice pulls (R05.5, shared)")
     c05.r05_5(Relabel(ctx, "R06.9"))
     ctx.floor("tool_cells_decided", 120)
